@@ -202,7 +202,11 @@ def float_eval(dentries, dobs, gq, t, field):
     entries = [l2b.load_obj(d) for d in dentries]
     g = R.from_quat(gq)
     t = np.array(t, dtype=float)
-    f = magpy.getB if field == "B" else magpy.getH
+    how = dobs.get("how", "top")
+
+    def f(srcs, obs, squeeze=False):      # pylint: disable=unused-argument
+        return l2b.call_field(srcs, obs, field, how)
+    tl = t.tolist() if dobs.get("t_as_list") else t          # list vs float64 ndarray input
     if dobs["kind"] == "array-param":
         # the rotation is given to the objects through one public parametrisation and anchor; the observers are
         # moved with the scipy Rotation built independently from the same parameters.  anchor=None (own position)
@@ -215,7 +219,7 @@ def float_eval(dentries, dobs, gq, t, field):
         B0 = f(entries, pts, squeeze=False)
         for e in entries:
             param_apply(e, p)
-            e.move(t)
+            e.move(tl)
         B1 = f(entries, g.apply(pts - c) + c + t, squeeze=False)
         return g.apply(B0.reshape(-1, 3)).reshape(B0.shape), B1
     if dobs["kind"] == "array-attributes":
@@ -235,15 +239,15 @@ def float_eval(dentries, dobs, gq, t, field):
         c = np.array(dentries[0]["position"][0], dtype=float)
         B0 = f(entries, pts, squeeze=False)
         entries[0].rotate(g)
-        entries[0].move(t)
+        entries[0].move(tl)
         B1 = f(entries, g.apply(pts - c) + c + t, squeeze=False)
         return g.apply(B0.reshape(-1, 3)).reshape(B0.shape), B1
     if dobs["kind"] == "array":
         pts = np.array(dobs["points"], dtype=float)
-        B0 = f(entries, pts, squeeze=False)
+        B0 = f(entries, pts.tolist() if dobs.get("t_as_list") else pts, squeeze=False)
         for e in entries:
             e.rotate(g, anchor=0)
-            e.move(t)
+            e.move(tl)
         B1 = f(entries, g.apply(pts) + t, squeeze=False)
         exp = g.apply(B0.reshape(-1, 3)).reshape(B0.shape)
     else:
@@ -251,7 +255,7 @@ def float_eval(dentries, dobs, gq, t, field):
         B0 = f(entries, sens, squeeze=False)
         for e in entries + sens:
             e.rotate(g, anchor=0)
-            e.move(t)
+            e.move(tl)
         B1 = f(entries, sens, squeeze=False)
         exp = B0
     return exp, B1
@@ -291,7 +295,7 @@ def frame_dev(dentry, pts, field):
     """second sentence of the property: pose (p_m, R_m) = local frame placed in the global frame.
     Deviation of the field of a posed entry from R_m . F_local(R_m^-1 (o - p_m)), F_local taken from the
     same source at the default pose (origin, unit orientation); collections: sum over their leaves."""
-    f = magpy.getB if field == "B" else magpy.getH
+    f = l2b.field_fn(field)
     pts = np.array(pts, dtype=float)
     got = f(l2b.load_obj(dentry), pts, squeeze=False)[0, :, 0]          # (M, n, 3)
     M = got.shape[0]
@@ -311,7 +315,7 @@ def frame_dev(dentry, pts, field):
     return l2b.rel_dev(exp, got)
 
 
-def frame_acceptable(dentry, pts, field):
+def frame_acceptable(dentry, pts, field, scale=1.0):
     try:
         dev = frame_dev(dentry, pts, field)
     except Exception as e:   # pylint: disable=broad-except
@@ -319,7 +323,7 @@ def frame_acceptable(dentry, pts, field):
     if dev <= TOL:
         return None
     try:
-        nf = noise_floor([dentry], {"kind": "array", "points": pts}, field)
+        nf = noise_floor([dentry], {"kind": "array", "points": pts, "scale": scale}, field)
     except Exception:   # pylint: disable=broad-except
         nf = 0.0
     if dev <= NOISE_FACTOR * nf:
@@ -328,20 +332,20 @@ def frame_acceptable(dentry, pts, field):
             "R.F_local(R^-1(o-p)) with F_local taken at the default pose")
 
 
-def frame_search_one(ctx, dentries, pts, field):
+def frame_search_one(ctx, dentries, pts, field, scale=1.0):
     for d in dentries:
         ctx.bump("float:pose-frame")
-        if frame_acceptable(d, pts, field) is None:
+        if frame_acceptable(d, pts, field, scale) is None:
             continue
         small = d
         while small["class"] == "Collection":
-            nxt = next((c for c in small["children"] if c["class"] != "Sensor" and frame_acceptable(c, pts, field)), None)
+            nxt = next((c for c in small["children"] if c["class"] != "Sensor" and frame_acceptable(c, pts, field, scale)), None)
             if nxt is None:
                 break
             small = nxt
         pk = "static" if small["class"] != "Collection" and len(small["position"]) == 1 else "path"
-        ctx.impl_fail(f"pose-frame/{leaf_class(small)}:{pk}", frame_acceptable(small, pts, field),
-                      {"kind": "float-frame", "entry": small, "points": pts, "field": field})
+        ctx.impl_fail(f"pose-frame/{leaf_class(small)}:{pk}", frame_acceptable(small, pts, field, scale),
+                      {"kind": "float-frame", "entry": small, "points": pts, "field": field, "scale": scale})
 
 
 def leaf_class(d):
@@ -398,9 +402,10 @@ def float_search(ctx, n):
                 entries, desc = l2b.nested_setup(rng, 1)
         else:
             entries, desc = (l2b.nested_setup(rng, 1 if by_attr else 2)) if nested else l2b.real_setup(rng)
-        field = rng.choice(["B", "H"])
+        field = l2b.pick_field(rng)
         if nested or param is not None or rng.random() < 0.5:
-            dobs = {"kind": "array", "points": [l2b.rvec(rng, -5, 5) for _ in range(rng.randint(1, 4))]}
+            npts = rng.randint(16, 24) if rng.random() < 0.12 else rng.randint(1, 4)      # also batches of >= 16 rows
+            dobs = {"kind": "array", "points": [l2b.rvec(rng, -5, 5) for _ in range(npts)]}
         else:
             sens = []
             npix = rng.randint(1, 3)      # without pixel_agg all sensors need the same pixel shape
@@ -413,6 +418,20 @@ def float_search(ctx, n):
         gq = l2b.rnd_rot(rng).as_quat().tolist()
         t = l2b.rvec(rng, -3, 3)
         dentries = [l2b.dump_obj(e) for e in entries]
+        dobs["how"] = rng.choice(["top", "top", "method"])
+        dobs["t_as_list"] = rng.random() < 0.5
+        if rng.random() < 0.3:            # absolute length scale: mm, micrometre, km
+            k = rng.choice([1e-3, 1e-6, 1e3])
+            dobs["scale"] = k
+            dentries = [l2b.scale_dump(d, k) for d in dentries]
+            t = [x * k for x in t]
+            if dobs["kind"] == "array":
+                dobs["points"] = (np.array(dobs["points"]) * k).tolist()
+            else:
+                dobs["sensors"] = [l2b.scale_dump(d, k) for d in dobs["sensors"]]
+            if param is not None and isinstance(param["anchor"], list):
+                param["anchor"] = [x * k for x in param["anchor"]]
+            ctx.bump("float:scale=%g" % k)
         devs, err = float_dev(dentries, dobs, gq, t, field)
         if param is not None:
             dobs = dict(dobs, kind="array-param", param=param)
@@ -429,7 +448,7 @@ def float_search(ctx, n):
         form = "covariant-observers" if dobs["kind"].startswith("array") else "invariant-sensors"
         ctx.case(("float", form, field, tuple(desc), repr(gq), repr(t)), True)
         if dobs["kind"].startswith("array"):
-            frame_search_one(ctx, dentries, dobs["points"], field)
+            frame_search_one(ctx, dentries, dobs["points"], field, dobs.get("scale", 1.0))
         ctx.bump("float:" + form)
         for k in desc:
             ctx.bump("float-class:" + k.split("[")[0])
@@ -492,7 +511,7 @@ def replay(ctx, obj):
         res = exact_fails(rp["case"])
         print("replay:", "property holds on this case" if res is None else "FAILS: " + res)
     elif rp.get("kind") == "float-frame":
-        res = frame_acceptable(rp["entry"], rp["points"], rp["field"])
+        res = frame_acceptable(rp["entry"], rp["points"], rp["field"], rp.get("scale", 1.0))
         print("replay:", "property holds on this setup" if res is None else "FAILS: " + res)
     elif rp.get("kind") == "exact-element":
         res = element_fails(rp["case"])
